@@ -407,6 +407,29 @@ func c10Run(c *Ctx) {
 			}
 		}
 	}
+	// a literal keeps its value as a divisor, a modulus or an exponent: tiny, fractional and beyond-2^53 literals
+	// next to / % ** in either script (a tiny literal is not zero; 0.1 is not one tenth)
+	{
+		small := []string{"0.0000000001", "0.0000000005", "0.00000000025", "0.000000001", "0." + strings.Repeat("0", 300) + "1", "0." + strings.Repeat("0", 322) + "5", "0.1", "0.2", "0.3", "0.01", "0.7", "1.1", "0.5", "0.25", "3", "7", "97"}
+		big := []string{"1", "2", "3", "7.5", "12.34", "1000000", "100000000000000000000", "12345678901234567890", "9007199254740993", "0.3", "5.5"}
+		for _, d := range small {
+			for _, n := range big {
+				for _, bn := range []int{0, 1, 2} {
+					dd, nn := d, n
+					if bn >= 1 {
+						dd = BanglaDigits(d, nil)
+					}
+					if bn == 2 {
+						nn = BanglaDigits(n, nil)
+					}
+					src := Lines(Print(nn+" / "+dd), Print(nn+" % "+dd), Var("step", dd), Print(nn+" / step"), Print("(0 - "+nn+") % step"), Print("("+nn+" + step - "+nn+") / step"), Print(dd+" ** 2"), Print(dd+" == "+d))
+					if c.Mine() {
+						c10Judge(c, &Case{Gen: "end-to-end", Src: src})
+					}
+				}
+			}
+		}
+	}
 	// an interactive line of several thousand bytes made of literals, in either script
 	for _, bangla := range []bool{false, true} {
 		var nums []string
